@@ -63,6 +63,10 @@ Reproducible ==
   /\ (round = 1 \/ cfg.ns <= 1)
   /\ (Fam = "search" => \A i, j \in 1..Len(hist) : hist[i].c = hist[j].c => hist[i].sc[1].lat = hist[j].sc[1].lat)
 
+\* FORMERR is only replayed against a single server (see Reproducible): do not
+\* explore the second round elsewhere
+GenPrune == cfg.ns <= 1 \/ \A s \in DOMAIN script : script[s].u # "FE"
+
 Emit == (sph = "done" /\ Reproducible) =>
           PrintT("CASE " \o (CASE Fam = "query" -> QueryCase
                                [] Fam = "sock" -> SockCase
